@@ -128,6 +128,28 @@ Theorem C19_indent_is_depth :
 Proof. intro d. split; [apply indent_str_length | split; [apply indent_str_spaces | apply indent_str_S]]. Qed.
 Print Assumptions C19_indent_is_depth.
 
+(* (j) "each unfiltered option once, in order": cutting a context at any option — a suppressed option
+   (with everything nested in it) leaves no trace in the output; an unsuppressed one contributes exactly
+   one contiguous block, between the output of the options before it and of those after it *)
+Theorem C19_suppressed_no_trace :
+  forall fmt a b c0 l1 o l2 e f g pff fb d,
+  let c := Cfg a b c0 (l1 ++ o :: l2) e f g pff in
+  suppressed (eff_filter c fb) o = true ->
+  print_cfg fmt c fb d = print_cfg fmt (Cfg a b c0 (l1 ++ l2) e f g pff) fb d.
+Proof. exact C19_suppressed_no_trace_pf. Qed.
+Print Assumptions C19_suppressed_no_trace.
+
+Theorem C19_block_in_place :
+  forall fmt a b c0 l1 o l2 e f g pff fb d,
+  let c := Cfg a b c0 (l1 ++ o :: l2) e f g pff in
+  suppressed (eff_filter c fb) o = false ->
+  print_cfg fmt c fb d =
+  print_cfg fmt (Cfg a b c0 l1 e f g pff) fb d ++
+  print_opt fmt o (eff_filter c fb) d ++
+  print_cfg fmt (Cfg a b c0 l2 e f g pff) fb d.
+Proof. exact C19_block_in_place_pf. Qed.
+Print Assumptions C19_block_in_place.
+
 (* ---------------- non-vacuity ---------------- *)
 (* three levels: root filters "hidden"; sec has no filter (inherits it); inner filters "b" instead,
    so its "hidden" is printed and its "b" is not *)
@@ -164,6 +186,8 @@ Example C19_example :
   eff_filter ex_l2 (Some [M "hidden"]) = Some [M "hidden"] /\
   eff_filter ex_l3 (Some [M "hidden"]) = Some [M "b"] /\
   map o_name (filter (fun o => negb (suppressed (eff_filter ex_root None) o)) (c_opts ex_root)) = [M "a"; M "sec"; M "z"] /\
+  suppressed (eff_filter ex_root None) (ex_mk "hidden" KInt 0 [VInt 9] None cbset0) = true /\
+  suppressed (eff_filter ex_root None) (ex_mk "z" KStr 0 [] None cbset0) = false /\
   scalar_kind KStr = true /\ has 0 CFGF_LIST = false /\ has CFGF_LIST CFGF_LIST = true /\
   null_string_value KInt [VInt 5] = false /\ null_string_value KStr [VStr None] = true /\
   null_string_value KStr [VStr (Some (M "q"))] = false /\ cb_print (o_cbs (ex_mk "s" KStr 0 [] None ex_pcb)) = Some 7%N /\
